@@ -1546,6 +1546,32 @@ pub fn suite_avp_lengths(out: &mut Out, tier: &str, rng: &mut Rng) {
             }
         }
     }
+    // data messages: every payload size 1..=300 and sizes around powers of two, all four header shapes with a
+    // Length field, offsets 0 / 1 / n-1
+    let mut sizes: Vec<usize> = (1..=300).collect();
+    for k in 9..=15u32 {
+        let p = 1usize << k;
+        sizes.extend([p - 1, p, p + 1]);
+    }
+    sizes.push(65535 - 14);
+    sizes.push(65535 - 15);
+    for (j, &n) in sizes.iter().enumerate() {
+        let data = rng.bytes(n);
+        for shape in 0..4usize {
+            if n > 300 && shape != j % 4 {
+                continue;
+            }
+            let ns_nr = if shape & 1 == 1 { json!([[rng.u16(), rng.u16()]]) } else { json!([]) };
+            let offset: Option<usize> = if shape & 2 == 2 { Some(*rng.pick(&[0usize, 1.min(n - 1), n - 1])) } else { None };
+            let total = 2 + 2 + 4 + if shape & 1 == 1 { 4 } else { 0 } + if offset.is_some() { 2 } else { 0 } + n;
+            if total > 65535 {
+                continue;
+            }
+            let d = json!({"k": "Data", "prio": rng.bool(), "length": [total], "tunnel_id": rng.u16(), "session_id": rng.u16(),
+                           "ns_nr": ns_nr, "offset": opt_json(offset.map(|x| json!(x))), "data": bytes_json(&data)});
+            out.emit(json!({"op": "roundtrip", "kind": "msg", "v": d}));
+        }
+    }
     // message Length: every bit position on both sides of a carry
     let mut totals: Vec<usize> = vec![];
     for k in 5..=15u32 {
